@@ -30,7 +30,7 @@ func init() {
 				prof := ProfileByName(ps, profs[i%len(profs)])
 				g := GenCfg{Keys: 10 + (i*13)%200, Vals: 8, MaxDepth: 2 + i%3, Txs: 10 + i%20, OpsPerTx: 10 + (i*7)%60, PReopen: 0.1}
 				if i%3 == 0 {
-					g.BigBucket = 200
+					g = GenCfg{Keys: 150 + (i*13)%400, Vals: 8, MaxDepth: 2, Txs: 12 + i%10, OpsPerTx: 80 + (i*7)%120, PReopen: 0.1, BigBucket: 400}
 				}
 				defer func() {
 					if p := recover(); p != nil {
@@ -73,6 +73,10 @@ func init() {
 							note("info: empty root leaf", fmt.Sprint(p))
 						}
 					} else {
+						viol["info: branch pages"]++
+						if p.Depth > 1 {
+							viol["info: non-root branch pages"]++
+						}
 						if p.Count < 2 {
 							note("I3 branch count<2", fmt.Sprint(p))
 						}
